@@ -396,12 +396,17 @@ func sortSlice(ex *Exec, st *State, fr *Frame, callee *ssa.Function, args []Val,
 	perm := fmt.Sprintf("perm_%d", ex.vc.n)
 	ex.vc.Raw(fmt.Sprintf("(declare-fun %s ((_ BitVec 64)) (_ BitVec 64))", perm))
 	ex.assume(st, fmt.Sprintf("(forall ((qi (_ BitVec 64))) (! (=> (bvult qi %s) (bvult (%s qi) %s)) :pattern ((%s qi))))", sv.ln, perm, sv.ln, perm))
+	// a permutation is injective
+	ex.assume(st, fmt.Sprintf("(forall ((qi (_ BitVec 64)) (qj (_ BitVec 64))) (! (=> (and (bvult qi %s) (bvult qj %s) (not (= qi qj))) (not (= (%s qi) (%s qj)))) :pattern ((%s qi) (%s qj))))", sv.ln, sv.ln, perm, perm, perm, perm))
 	nt := leafMap(tree, func(l Sc) Sc {
 		_, inner := l.S.ArrParts()
 		old := sel(l.T, sv.ref)
 		na := ex.vc.Fresh("sorted", inner)
-		ex.assume(st, fmt.Sprintf("(forall ((qi (_ BitVec 64))) (! (= (select %s (bvadd %s qi)) (ite (bvult qi %s) (select %s (bvadd %s (%s qi))) (select %s (bvadd %s qi)))) :pattern ((select %s (bvadd %s qi)))))",
-			na, sv.off, sv.ln, old, sv.off, perm, old, sv.off, na, sv.off))
+		// absolute index q: inside [off, off+len) the element comes from position
+		// off + perm(q - off) of the old content, outside nothing changes
+		rel := app("bvsub", "qi", sv.off)
+		inside := and(app("bvule", sv.off, "qi"), app("bvult", rel, sv.ln))
+		ex.arrayDef(st, na, inner, ite(inside, sel(old, app("bvadd", sv.off, app(perm, rel))), sel(old, "qi")), "")
 		return Sc{sto(l.T, sv.ref, na), l.S}
 	})
 	ex.setHeapTree(st, AElems, el, nt)
@@ -588,4 +593,17 @@ func randInt(ex *Exec, st *State, fr *Frame, callee *ssa.Function, args []Val, c
 	ex.assume(st, implies(eq(e, z64()), and(not(eq(h, z64())), app("bvsle", z64(), bigVal(ex, h)), app("bvslt", bigVal(ex, h), mx))))
 	ex.vc.Trust("crypto/rand.Int returns an error or a value in [0, max)")
 	return &Agg{F: []Val{Sc{h, SRef}, Sc{e, SRef}}}
+}
+
+// nonNilResult: library constructors return a non-nil object.
+func nonNilResult(ex *Exec, st *State, fr *Frame, callee *ssa.Function, args []Val, c *ssa.CallCommon, pos token.Pos) Val {
+	for _, a := range args {
+		ex.markEscapedAny(a)
+	}
+	v := ex.freshResults(st, c.Signature().Results(), "new")
+	if s, ok := v.(Sc); ok && s.S == SRef {
+		ex.assume(st, not(eq(s.T, z64())))
+	}
+	ex.vc.Trust("library constructors (New*) return non-nil objects")
+	return v
 }
